@@ -110,6 +110,7 @@ class Registry:
         self.active = None       # contract being verified (its inline set / externals apply)
         self.assumptions = []    # human-readable list that goes to the evidence
         self.mutants = {}
+        self.lemmas = []         # (property, name, pc, goal): induction steps of spec-function lemmas
 
     # ---- declarations ---------------------------------------------------------
     def classdecl(self, name, file=None, fields=None, bases=(), truthy=None):
